@@ -147,7 +147,7 @@ theorem exprG_not {x : BExp} (ih : ExprG Kn ρ σ0 s0 x) : ExprG Kn ρ σ0 s0 (.
         rw [ha5.cur_eq rfl σ0, hc4, res.val]; simp [BExp.eval]
       obtain ⟨gi6, fr6, hc6, hqc6, hmem6⟩ := expqSet_gi hset gi5 hnav5 hval5 (fun _ _ => TgtL.of_gate hgw hL)
       have tot := ((fr1.trans fr4).trans fr5).trans fr6
-      refine ⟨gi6, tot.mono ?_ ?_ ?_, fun _ => ⟨fun h' => hnav5 (fr6.avail a h'), by rw [hc6]; exact hval5,
+      refine ⟨gi6, tot.mono ?_ ?_ ?_ (fun q h => by simpa [hasConst] using h), fun _ => ⟨fun h' => hnav5 (fr6.avail a h'), by rw [hc6]; exact hval5,
         fun _ _ => fr6.tkeep _ (TgtL.of_gate hgw hL), fun _ => ⟨?_, ?_⟩, fun _ _ => hav0, res.np,
         fun hl => (by cases hl)⟩, fun d hd0 => (by cases hd0)⟩
       · rintro q hq' (((hh | hh) | hh) | hh)
@@ -179,7 +179,8 @@ theorem exprG_not {x : BExp} (ih : ExprG Kn ρ σ0 s0 x) : ExprG Kn ρ σ0 s0 (.
                 expqSet x.not d
                 pure d
               else pure d : M Nat) s4 = .ok (a, s') →
-          GI Kn ρ σ0 s0 s' ∧ Fr Kn σ0 s0 s1 s' (fun q => dest = some q) (· = a) NoN ∧
+          GI Kn ρ σ0 s0 s' ∧
+          Fr Kn σ0 s0 s1 s' (fun q => dest = some q) (· = a) NoN (fun _ => hasConst (BExp.not x) = true) ∧
           (dest = none → ResG Kn ρ σ0 s0 s1 s' (BExp.not x) a) ∧
           (∀ d, dest = some d → a = d ∧ cur σ0 s' d = Bool.xor (cur σ0 s1 d) ((BExp.not x).eval ρ) ∧
             TgtL s0 s' d) := by
@@ -223,7 +224,7 @@ theorem exprG_not {x : BExp} (ih : ExprG Kn ρ σ0 s0 x) : ExprG Kn ρ σ0 s0 (.
           simp only [Option.isNone_some, Bool.false_eq_true, ↓reduceIte] at k3
           obtain ⟨e1, e2⟩ := run_pure_ok.mp k3
           subst e2; subst e1
-          refine ⟨git3, (fr1.trans frB).mono ?_ ?_ ?_, fun hn => (by cases hn), fun d' hd' => ?_⟩
+          refine ⟨git3, (fr1.trans frB).mono ?_ ?_ ?_ (fun q h => by simpa [hasConst] using h), fun hn => (by cases hn), fun d' hd' => ?_⟩
           · rintro q _ (hh | (((hh | hh) | hh) | hh))
             · cases hh
             · exact hh.elim
@@ -257,7 +258,7 @@ theorem exprG_not {x : BExp} (ih : ExprG Kn ρ σ0 s0 x) : ExprG Kn ρ σ0 s0 (.
           obtain ⟨gi5, fr5, hc5, hqc5, _⟩ := expqSet_gi hset (git3.monoH (fun _ hh => hh.elim)) hpt3.nav hval3
             (fun _ _ => tgd3)
           have hav1 : Avail s1 a := fr1.avail a hava
-          refine ⟨gi5, ((fr1.trans frB).trans fr5).mono ?_ ?_ ?_, fun _ => ⟨fun h' => hpt3.nav (fr5.avail a h'),
+          refine ⟨gi5, ((fr1.trans frB).trans fr5).mono ?_ ?_ ?_ (fun q h => by simpa [hasConst] using h), fun _ => ⟨fun h' => hpt3.nav (fr5.avail a h'),
             by rw [hc5]; exact hval3, fun _ _ => fr5.tkeep _ tgd3,
             fun _ => ⟨Unread.congr (by rw [hqc5]) hpt3.unread, by rw [hqc5]; exact hpt3.nm⟩, fun _ _ => hav1,
             fun q hq' e' => hq'.nav (e' ▸ hav1), fun hl => (by cases hl)⟩, fun d' hd' => (by cases hd')⟩
